@@ -144,6 +144,9 @@ structure Env where
   otherB : Nat → Bool               -- unrecognised conditions
   callB : String → Bool             -- helpers that are not followed
   otherH : String → Option Bool     -- unrecognised helper statements: return a value, or fall through
+  listNonEmpty : String → Bool      -- the request's list field is non-empty
+  payloadGood : Bool                -- every entry of every list of the payload passes the handler's entry validation
+  clob : Nat → Option Bool          -- other assignments to a named result: the value assigned, or none
 
 def evalS (env : Env) (auth : Str) : SExpr → Str
   | .reqAuthority => auth
@@ -173,6 +176,11 @@ def substH (args : List SExpr) : HStmt → HStmt
   | .retIf c v => .retIf (substB args c) v
   | .ret v => .ret v
   | .retB c => .retB (substB args c)
+  | .setIf c v => .setIf (substB args c) v
+  | .retVar => .retVar
+  | .clobberLoop f => .clobberLoop f
+  | .checkLoop f => .checkLoop f
+  | .clobber i s => .clobber i s
   | .other s => .other s
 
 /-- conditions, with the value of helper calls supplied by `callVal` -/
@@ -190,19 +198,29 @@ def evalBWith (env : Env) (auth : Str) (callVal : String → List SExpr → Bool
 /-- conditions inside a helper body: further helper calls are not followed -/
 def evalB0 (env : Env) (auth : Str) : BExpr → Bool := evalBWith env auth (fun h _ => env.callB h)
 
-/-- value of a helper body (first statement that returns) -/
-def helperVal (env : Env) (auth : Str) : List HStmt → Bool
-  | [] => env.callB "fallthrough"
-  | .retIf c v :: rest => if evalB0 env auth c then v else helperVal env auth rest
-  | .ret v :: _ => v
-  | .retB c :: _ => evalB0 env auth c
-  | .other s :: rest => match env.otherH s with | some v => v | none => helperVal env auth rest
+/-- value of a helper body: the first statement that returns decides; `cur` is the current value of a named result
+(`false` = nil), which `return err` returns -/
+def helperVal (env : Env) (auth : Str) : Bool → List HStmt → Bool
+  | cur, [] => cur
+  | cur, .retIf c v :: rest => if evalB0 env auth c then v else helperVal env auth cur rest
+  | _, .ret v :: _ => v
+  | _, .retB c :: _ => evalB0 env auth c
+  | cur, .setIf c v :: rest => helperVal env auth (if evalB0 env auth c then v else cur) rest
+  | cur, .retVar :: _ => cur
+  | cur, .clobberLoop f :: rest =>
+    if !env.listNonEmpty f then helperVal env auth cur rest      -- no iteration: the named result keeps its value
+    else if env.payloadGood then helperVal env auth false rest   -- the last good entry left nil in it
+    else true                                                     -- a bad entry: returns an error
+  | cur, .checkLoop f :: rest =>
+    if env.listNonEmpty f && !env.payloadGood then true else helperVal env auth cur rest
+  | cur, .clobber i _ :: rest => helperVal env auth (match env.clob i with | some v => v | none => cur) rest
+  | cur, .other s :: rest => match env.otherH s with | some v => v | none => helperVal env auth cur rest
 
 def findHelper (hs : List Helper) (k : String) : Option Helper := hs.find? (fun h => h.key == k)
 
 def callVal (hs : List Helper) (env : Env) (auth : Str) (h : String) (args : List SExpr) : Bool :=
   match findHelper hs h with
-  | some hp => helperVal env auth (hp.body.map (substH args))
+  | some hp => helperVal env auth false (hp.body.map (substH args))
   | none => env.callB h
 
 /-- a guard condition of a handler, helpers followed one level -/
@@ -245,11 +263,12 @@ def atomsWith (callAtoms : Bool → String → List SExpr → Option (List Atom)
 
 def atoms0 : Bool → BExpr → Option (List Atom) := atomsWith (fun _ _ _ => none)
 
-/-- helper bodies of the three exact shapes -/
+/-- helper bodies of the exact shapes -/
 def helperAtoms (p : Bool) : List HStmt → Option (List Atom)
   | [.retIf c true, .ret false] => atoms0 p c
   | [.retIf c false, .ret true] => atoms0 (!p) c
   | [.retB c] => atoms0 p c
+  | [.setIf c true, .retVar] => atoms0 p c
   | _ => none
 
 def callAtoms (hs : List Helper) (p : Bool) (h : String) (args : List SExpr) : Option (List Atom) :=
